@@ -76,6 +76,12 @@ var Carriers = []string{"var", "tag", "rm", "map", "mapiface", "listmap", "url",
 
 const scalarKey = "k" // map key / url parameter / field name "K"
 
+// urlNoValue marks an entry of ScalarCase.Others that is written without '=' (a bare flag).
+const urlNoValue = "\x00no-value"
+
+// oddSegments: query segments that carry no parameter of ours (empty, bare, name-less).
+var oddSegments = [][2]string{{"", ""}, {"flag", urlNoValue}, {"", "v"}, {"", ""}}
+
 func (c *ScalarCase) rules() string { return strings.Join(c.Rules, ",") }
 
 func (c *ScalarCase) key() string {
@@ -314,7 +320,14 @@ func (c *ScalarCase) prepare() func() error {
 	case "url", "urlenc":
 		var params []string
 		for _, o := range c.Others {
-			params = append(params, o[0]+"="+o[1])
+			switch {
+			case o[0] == "" && o[1] == "":
+				params = append(params, "") // an empty segment (?&k=.. or ..&&k=..)
+			case o[1] == urlNoValue:
+				params = append(params, o[0]) // a segment without '='
+			default:
+				params = append(params, o[0]+"="+o[1])
+			}
 		}
 		if !c.Missing {
 			var ours []string
